@@ -705,6 +705,8 @@ func (h *H) crossStreams() {
 		{vaxis.KeyF01, 1, 'P', ss3L('P')}, {vaxis.KeyF02, 1, 'Q', ss3L('Q')}, {vaxis.KeyF04, 1, 'S', ss3L('S')}, {vaxis.KeyF03, 13, '~', ss3L('R')},
 		{vaxis.KeyInsert, 2, '~', tilde(2)}, {vaxis.KeyDelete, 3, '~', tilde(3)}, {vaxis.KeyPgUp, 5, '~', tilde(5)}, {vaxis.KeyPgDown, 6, '~', tilde(6)},
 		{vaxis.KeyF05, 15, '~', tilde(15)}, {vaxis.KeyF12, 24, '~', tilde(24)},
+		// the Begin key: CSI E / CSI 1;m E, SS3 E in application cursor key mode (F513), kitty CSI 1;m E and CSI 57427;m ~
+		{vaxis.KeyKeyPadBegin, 1, 'E', csiL('E')}, {vaxis.KeyKeyPadBegin, 57427, '~', csiL('E')}, {vaxis.KeyKeyPadBegin, 57427, '~', ss3L('E')},
 	}
 	bindsFor := func(key rune, sh rune, m int) ([][2]int, string) {
 		var b [][2]int
